@@ -2,10 +2,6 @@ import CobraModel.Model.Core
 namespace Core
 open GPRM
 
-def genesOpt : Option G → List String
-  | none => []
-  | some g => genes g
-
 /-- distinctness of solver names: reverse-variable names are not reaction ids and are pairwise distinct -/
 structure NameSep (s : St) : Prop where
   rev_ne : ∀ r r', s.hasR r = true → s.hasR r' = true → s.rev r ≠ r'
